@@ -48,6 +48,9 @@ pub enum Step {
     /// n rounds of get + return of the same slot, answered with correct echoes (the
     /// script of replies is not consumed): long-lived pools, multi-digit PING values
     Churn { n: u16 },
+    /// two get() calls in flight at the same time (their recycles overlap on the wire);
+    /// only run when the script has no non-echo answer left, so both must succeed
+    GetPair,
 }
 
 #[derive(Clone, Debug, Serialize, Deserialize, PartialEq, Eq, Hash)]
@@ -477,6 +480,51 @@ async fn run_case(case: &Case, srv: Srv, out: &mut Out) {
                 taken.push((raw, id));
             }
             Step::Churn { .. } => unreachable!(),
+            Step::GetPair => {
+                if held.len() + 2 > case.max_size as usize {
+                    continue;
+                }
+                {
+                    let g = lock(&srv);
+                    if g.replies.iter().skip(g.n_recycle).any(|r| *r != Reply::Echo) {
+                        continue;
+                    }
+                }
+                let (a, b) = tokio::join!(
+                    tokio::time::timeout(Duration::from_secs(20), pool.get()),
+                    tokio::time::timeout(Duration::from_secs(20), pool.get())
+                );
+                out.labels.push("get-pair".into());
+                for r in [a, b] {
+                    let mut conn = match r {
+                        Err(_) => fail!("get-hung", "one of two concurrent pool.get() calls did not finish"),
+                        Ok(Err(e)) => fail!("get-failed", "one of two concurrent pool.get() calls failed: {}", e),
+                        Ok(Ok(c)) => c,
+                    };
+                    let Some(id) = whoami(&mut conn).await else {
+                        fail!("unusable-connection-handed-out", "get() returned a connection that cannot answer a command")
+                    };
+                    if condemned.contains(&id) {
+                        fail!("unsynchronised-connection-handed-out", "connection {} was handed out by one of two concurrent gets although it is condemned", id);
+                    }
+                    let m = models.entry(id).or_default();
+                    if m.taken {
+                        fail!("taken-connection-came-back", "connection {} was taken out of the pool and handed out again", id);
+                    }
+                    m.handouts += 1;
+                    if m.returned_at.take().is_some() {
+                        out.labels.push("reuse".into());
+                        let g = lock(&srv);
+                        if !g.conns[id].watch.is_empty() {
+                            let wset = g.conns[id].watch.clone();
+                            drop(g);
+                            fail!("watch-state-leaked", "connection {} was reused with watched keys {:?}", id, wset);
+                        }
+                        m.watch_left = false;
+                    }
+                    held.push((conn, id));
+                }
+            }
             Step::UseTaken { t } => {
                 let Some(i) = pick(t, taken.len()) else { continue };
                 let id = taken[i].1;
@@ -545,6 +593,7 @@ fn case(thorough: bool) -> BoxedStrategy<Case> {
         1 => any::<u8>().prop_map(|h| Step::Take { h }),
         1 => any::<u8>().prop_map(|t| Step::UseTaken { t }),
         1 => prop_oneof![3 => 1u16..40, 1 => 200u16..600].prop_map(|n| Step::Churn { n }),
+        2 => Just(Step::GetPair),
     ];
     (1u8..=3, prop::collection::vec(reply, 0..10), prop::collection::vec(step, 1..=maxlen))
         .prop_map(|(max_size, replies, steps)| Case { max_size, replies, steps })
@@ -562,7 +611,7 @@ impl Engine for Redx {
     }
 
     fn rule(_prop: &str) -> String {
-        "case = pool size 1..=3, a script of answers to the n-th recycling PING (correct echo / stale echo / other value / empty string / expected value minus its last character / expected value plus a digit / -ERR / disconnect / silence) and a history of get / return / WATCH / Connection::take / use-taken / churn (up to 600 echoed recycles, so PING values grow to several digits and pass 256) steps against an in-process scripted RESP server on a Unix socket; distinct by hash of the case. Non-trivial: at least one recycling PING was not answered with the correct echo, or a connection was reused after its previous user left a WATCH".into()
+        "case = pool size 1..=3, a script of answers to the n-th recycling PING (correct echo / stale echo / other value / empty string / expected value minus its last character / expected value plus a digit / -ERR / disconnect / silence) and a history of get / return / WATCH / Connection::take / use-taken / churn (up to 600 echoed recycles, so PING values grow to several digits and pass 256) / get-pair (two get() calls in flight at once) steps against an in-process scripted RESP server on a Unix socket; distinct by hash of the case. Non-trivial: at least one recycling PING was not answered with the correct echo, or a connection was reused after its previous user left a WATCH".into()
     }
 
     fn assumptions(_prop: &str) -> Vec<String> {
